@@ -26,7 +26,7 @@ ASSUMPTIONS = [
     "Serializable.copy of a message is a structural copy (C40)",
     "header blocks have <= 5 entries with symbolic contents (shapes enumerated); Headers with <= 3 fields",
     "options at their defaults (validate_inbound_headers on): with validation switched off by the user CR/LF injection into HTTP/1 is possible by design and is not claimed",
-    "T2 drives HTTP/1.1 and HTTP/2 peers only; HTTP/3 uses the same conversion functions (T1) through _http3.py, its QPACK/QUIC glue (_http_h3.py) is not exercised",
+    "T2 drives HTTP/1.1, HTTP/2 and (client side only) HTTP/3 peers; an HTTP/3 upstream (Http3Client over ServerQuicLayer) is not driven - it uses the same conversion functions (T1)",
 ]
 
 
@@ -304,7 +304,12 @@ def install_normalize_h1(vc):
 def check_normalized(vc, real, tag, got_tail, want_input, want_is_client):
     """got_tail must be normalize_h1_headers(want_input, want_is_client)"""
     if vc.mode == "native":
-        vc.ensure(tag + ".normalized_rest", list(got_tail) == real(list(want_input), want_is_client))
+        # same obligation names as in proof mode (the conformance check compares which obligations a path reaches)
+        ok = list(got_tail) == real(list(want_input), want_is_client)
+        vc.ensure(tag + ".normalized_rest", ok)
+        if ok:
+            vc.ensure(tag + ".normalized_input_is_remaining_fields", ok)
+            vc.ensure(tag + ".normalized_direction", ok)
         return
     ok = len(got_tail) == 1 and isinstance(got_tail[0], STuple) and got_tail[0].items[0].concrete() == "NORMALIZED"
     vc.ensure(tag + ".normalized_rest", ok)
@@ -534,12 +539,15 @@ def s_h1client_send(vc):
         return
     want_fields = expected_h1_fields(fields, authority)
     want = method + b" " + path + b" HTTP/1.1\r\n" + wire_fields(want_fields) + b"\r\n"
-    vc.ensure("head.is_origin_form_request_with_converted_fields", vc.eq(tr[0].data, want))
+    has_framing = any(k.lower() in (b"content-length", b"transfer-encoding") for k, _ in fields)
+    K1 = And(Not(end_stream), not has_framing)  # class of KF-C06-1: a body will follow and nothing in the HTTP/2|3 fields frames it
+    vc.ensure("head.is_origin_form_request_with_converted_fields", Implies(Not(K1), vc.eq(tr[0].data, want)))
     vc.ensure("stream_bound", And(vc.eq(layer.stream_id, 7), layer.request is req))
     vc.ensure("frame.flow_request_untouched", And(fields_eq(vc, hfields(vc, req.data.headers), fields), vc.eq(req.data.authority, authority), vc.eq(req.data.http_version, version)))
-    has_framing = any(k.lower() in (b"content-length", b"transfer-encoding") for k, _ in fields)
-    # HTTP/2|3 delimit the body by frames; an HTTP/1 request whose head announces no length has no body (RFC 9112 6.3 rule 7)
-    vc.ensure_kf("body_follows_only_after_a_head_that_frames_it", Or(end_stream, has_framing), "KF-C06-1", And(Not(end_stream), not has_framing))
+    # HTTP/2|3 delimit the body by frames; an HTTP/1 request whose head announces no length has no body (RFC 9112 6.3 rule 7):
+    # when a body follows, the emitted head must carry a framing field (its own, or one added by the conversion)
+    framed = Or(*[contains(tr[0].data, x) for x in (b"\r\ntransfer-encoding: chunked\r\n", b"\r\nTransfer-Encoding: chunked\r\n", b"\r\ncontent-length: ", b"\r\nContent-Length: ")])
+    vc.ensure_kf("body_follows_only_after_a_head_that_frames_it", Or(end_stream, framed), "KF-C06-1", K1)
 
 
 def reason_phrase(status):
@@ -799,7 +807,7 @@ class Exchange:
         opts = sansio.make_options(connection_strategy="lazy", validate_inbound_headers=validate, normalize_outbound_headers=normalize)
         self.client = sansio.make_client()
         self.client.tls = True
-        self.client.alpn = b"h2" if cproto == "h2" else b"http/1.1"
+        self.client.alpn = {"h2": b"h2", "h3": b"h3"}.get(cproto, b"http/1.1")  # (h3: the HTTP layer only looks at the ALPN; upstream stays TCP)
         self.client.proxy_mode = mode_specs.ProxyMode.parse("regular")
         self.ctx = sansio.context_for(opts, self.client)
         self.top = H.HttpLayer(self.ctx, H.HTTPMode.regular)
@@ -815,6 +823,11 @@ class Exchange:
         if cproto == "h2":
             self.cpeer = H2Peer(self.drv, self.client, client_side=True)
             self.cpeer.start()
+        elif cproto == "h3":
+            from props.h2peer import H3ClientPeer
+            self.cpeer = H3ClientPeer(self.drv, self.client)
+            self.cpeer.flush()
+            self.cpeer.pump()
         self.up_conn = None
         self.up_peer = None
         self.up_bytes = b""
@@ -845,6 +858,21 @@ class Exchange:
         except Exception as e:  # the plain h2 peer itself refuses to encode this block
             raise PeerRefused(repr(e))
         self.cpeer.flush()
+
+    def send_request_h3(self, req):
+        hdrs = list(req.get("raw_block") or ([(b":method", req["method"]), (b":scheme", req["scheme"]), (b":authority", req["authority"]), (b":path", req["path"])] + list(req["headers"])))
+        body, trailers = req.get("body"), req.get("trailers")
+        p = self.cpeer
+        try:
+            sid = p.quic.get_next_available_stream_id()
+            p.h3.send_headers(sid, hdrs, end_stream=not body and not trailers)
+            if body:
+                p.h3.send_data(sid, body, end_stream=not trailers)
+            if trailers:
+                p.h3.send_headers(sid, trailers, end_stream=True)
+        except Exception as e:
+            raise PeerRefused(repr(e))
+        p.flush()
 
     # ---- upstream side
     def pump_upstream(self):
@@ -912,6 +940,29 @@ def h2_message(events, sid, request):
     return dict(headers=hdrs, body=body, trailers=trailers, ended=ended, reset=reset)
 
 
+def h3_message(events, sid):
+    """assemble the message of QUIC stream sid from plain aioquic H3 events"""
+    from aioquic.h3.events import DataReceived, HeadersReceived
+    hdrs, body, trailers, ended, reset = None, b"", None, False, None
+    for ev in events:
+        if isinstance(ev, tuple):
+            if ev[0] == "reset" and ev[1] == sid:
+                reset = ev[2]
+            continue
+        if getattr(ev, "stream_id", None) != sid:
+            continue
+        if isinstance(ev, HeadersReceived):
+            if hdrs is None:
+                hdrs = list(ev.headers)
+            else:
+                trailers = list(ev.headers)
+            ended = ended or ev.stream_ended
+        elif isinstance(ev, DataReceived):
+            body += ev.data
+            ended = ended or ev.stream_ended
+    return dict(headers=hdrs, body=body, trailers=trailers, ended=ended, reset=reset)
+
+
 def run_exchange(cproto, sproto, req, resp, validate=True, normalize=True):
     """returns dict(up_request=..., client_response=..., problems=[...]) with messages as decoded by the independent peers"""
     import h2.events
@@ -934,7 +985,7 @@ def _run_exchange(ex, out, cproto, sproto, req, resp):
             ex.send_request_h1(req)
         else:
             try:
-                ex.send_request_h2(req)
+                ex.send_request_h3(req) if cproto == "h3" else ex.send_request_h2(req)
             except PeerRefused as e:
                 out["problems"].append(("peer-refused", str(e)))
                 return out
@@ -975,6 +1026,13 @@ def _run_exchange(ex, out, cproto, sproto, req, resp):
                 out["client_response"] = msgs[0] if msgs else None
             except RefError as e:
                 out["problems"].append(("client-bytes-rejected-by-reference-reader", str(e)))
+        elif cproto == "h3":
+            ex.cpeer.pump()
+            m = h3_message(ex.cpeer.events, 0)
+            out["client_response"] = m if (m["headers"] is not None or m["reset"] is not None) else None
+            out["client_terminated"] = ex.cpeer.closed_by_mitm is not None
+            if ex.cpeer.error is not None:
+                out["problems"].append(("client-peer-protocol-error", repr(ex.cpeer.error)))
         else:
             ex.cpeer.pump()
             m = h2_message(ex.cpeer.events, 1, False)
@@ -1032,13 +1090,13 @@ def check_request(b, inp, cproto, sproto, req, r):
             b.fail("request.fields_preserved", inp, f"sent {canon_fields(sent_fields)}, upstream read {canon_fields(got['headers'], drop={b'host'})}")
         if got["body"] != body or not got["ended"]:
             b.fail("request.body_preserved", inp, f"sent {body!r}, upstream read {got['body']!r} ended={got['ended']}")
-        if cproto == "h2" and (req.get("trailers") or None) != (got["trailers"] or None):
+        if cproto in ("h2", "h3") and (req.get("trailers") or None) != (got["trailers"] or None):
             b.fail("request.trailers_preserved", inp, f"sent {req.get('trailers')}, upstream read {got['trailers']}")
 
 
 def _is_unframed_body(cproto, sproto, req):
     """class K of KF-C06-1: HTTP/2 request with a body (or trailers) but neither content-length nor transfer-encoding, forwarded over HTTP/1"""
-    return cproto == "h2" and sproto == "h1" and bool(req.get("body")) and not any(k.lower() in (b"content-length", b"transfer-encoding") for k, _ in req["headers"])
+    return cproto in ("h2", "h3") and sproto == "h1" and bool(req.get("body")) and not any(k.lower() in (b"content-length", b"transfer-encoding") for k, _ in req["headers"])
 
 
 def check_response(b, inp, cproto, sproto, req, resp, r):
@@ -1120,7 +1178,7 @@ def _well_formed_cases(tier, rnd):
     i = 0
     while len(cases) < n:
         rq, rs = reqs[i % len(reqs)], resps[(i * 7 + i // len(reqs)) % len(resps)]
-        for cproto in ("h1", "h2"):
+        for cproto in ("h1", "h2", "h3"):
             for sproto in ("h1", "h2"):
                 cases.append((cproto, sproto, rq, rs))
         i += 1
@@ -1131,7 +1189,7 @@ def _concretise(cproto, sproto, rq, rs):
     """make the abstract case expressible in the two wire protocols; returns (req, resp) or None if not expressible"""
     req = dict(rq)
     resp = dict(rs)
-    req["headers"] = [(k.lower() if cproto == "h2" else k, v) for k, v in rq["headers"]]
+    req["headers"] = [(k.lower() if cproto in ("h2", "h3") else k, v) for k, v in rq["headers"]]
     body = rq["body"]
     if cproto == "h1":
         req["trailers"] = None  # HTTP/1 trailers are not implemented by mitmproxy's reader (C01)
@@ -1285,12 +1343,12 @@ def _adversarial_response_blocks():
     return out
 
 
-def check_adversarial_request(b, label, blk):
+def check_adversarial_request(b, label, blk, cproto="h2"):
     """HTTP/2 client sends `blk` (default options: validate_inbound_headers on) towards an HTTP/1 upstream: either nothing is
     forwarded, or exactly one well-formed HTTP/1 request whose fields are the block's fields."""
-    inp = {"kind": "adversarial-request", "mutation": label, "block": [[k.decode("latin-1"), v.decode("latin-1")] for k, v in blk]}
+    inp = {"kind": "adversarial-request", "client": cproto, "mutation": label, "block": [[k.decode("latin-1"), v.decode("latin-1")] for k, v in blk]}
     req = dict(method=b"?", scheme=b"https", authority=b"a.test", path=b"?", headers=[], raw_block=blk, body=None, trailers=None)
-    r = run_exchange("h2", "h1", req, None)
+    r = run_exchange(cproto, "h1", req, None)
     if any(p[0] == "crash" for p in r["problems"]):
         b.fail("adversarial.no_crash", inp, str(r["problems"]))
         return "crash"
@@ -1321,7 +1379,10 @@ def check_adversarial_request(b, label, blk):
     hosts = [v for k, v in m["fields"] if k.lower() == b"host"]
     want_host = [ps[b":authority"]] if ps.get(b":authority") else [v for k, v in regular if k.lower() == b"host"]
     if hosts != want_host and not (ps.get(b":authority") and hosts == [v for k, v in regular if k.lower() == b"host"] == [ps[b":authority"]]):
-        b.fail("adversarial.single_host_equal_to_authority", inp, f"Host fields {hosts}, :authority {ps.get(b':authority')!r}, host fields in block {[v for k, v in regular if k.lower() == b'host']}")
+        # class K of KF-C06-7: both :authority and a different Host field in one block (malformed per RFC 9113 8.3.1 / RFC 9114 4.3.1);
+        # hyper-h2 rejects it, aioquic does not
+        k7 = bool(ps.get(b":authority")) and any(k.lower() == b"host" and v != ps[b":authority"] for k, v in regular) and cproto == "h3"
+        b.fail("adversarial.host_field_agrees_with_authority" if k7 else "adversarial.single_host_equal_to_authority", inp, f"Host fields {hosts}, :authority {ps.get(b':authority')!r}, host fields in block {[v for k, v in regular if k.lower() == b'host']}")
     if canon_fields(m["fields"], drop={b"host"}) != canon_fields([(k, v.strip(b" \t")) for k, v in regular], drop={b"host"}):
         b.fail("adversarial.fields_are_the_block_fields", inp, f"{m['fields']} from {regular}")
     return "forwarded"
@@ -1398,7 +1459,7 @@ def bounded(tier, seed):
               "x 3 positions x every name/value incl. pseudo-headers, plus 36 structural mutations) from an HTTP/2 client to an HTTP/1 upstream "
               "and from an HTTP/2 upstream to an HTTP/1 client, default options: nothing forwarded, or exactly one well-formed message with the "
               "block's fields. distinct = (protocol pair, request, response) / the block; non-trivial = message reached the other side")
-    b.bound = "one exchange per connection; HTTP/3 is not driven in T2 (shares the conversion functions proved in T1)"
+    b.bound = "one exchange per connection; HTTP/3 only on the client side (plain aioquic H3Connection as peer, QUIC stream events fed directly); an HTTP/3 upstream is not driven"
     outcomes = {}
     for cproto, sproto, rq, rs in _well_formed_cases(tier, rnd):
         c = _concretise(cproto, sproto, rq, rs)
@@ -1421,10 +1482,11 @@ def bounded(tier, seed):
         check_request(b, inp, cproto, sproto, req, r)
         if r["up_request"] is not None and not (_is_unframed_body(cproto, sproto, req)):
             check_response(b, inp, cproto, sproto, req, resp, r)
-    for label, blk in _adversarial_request_blocks():
-        o = check_adversarial_request(b, label, blk)
-        outcomes[("req", o)] = outcomes.get(("req", o), 0) + 1
-        b.case(("adv-req", label), nontrivial=o == "forwarded")
+    for cproto in ("h2", "h3"):
+        for label, blk in _adversarial_request_blocks():
+            o = check_adversarial_request(b, label, blk, cproto)
+            outcomes[("req", cproto, o)] = outcomes.get(("req", cproto, o), 0) + 1
+            b.case(("adv-req", cproto, label), nontrivial=o == "forwarded")
     for label, blk in _adversarial_response_blocks():
         o = check_adversarial_response(b, label, blk)
         outcomes[("resp", o)] = outcomes.get(("resp", o), 0) + 1
